@@ -527,6 +527,9 @@ func (e *termEnv) termOf(v ssa.Value) *Term {
 	case *ssa.ChangeInterface:
 		return e.termOf(x.X)
 	case *ssa.BinOp:
+		if ranged := rangeIndexOf(x); ranged != nil {
+			return mk("rangeidx", "", e.termOf(ranged))
+		}
 		a, b := e.termOf(x.X), e.termOf(x.Y)
 		switch x.Op {
 		case token.ADD:
@@ -949,6 +952,9 @@ func (e *termEnv) phiTerm(p *ssa.Phi) *Term {
 	if iv := e.ivOf(p); iv != nil {
 		return iv
 	}
+	if t := e.boolPhi(p); t != nil {
+		return t
+	}
 	var ts []*Term
 	for _, ed := range p.Edges {
 		ts = append(ts, e.termOf(ed))
@@ -1185,4 +1191,92 @@ func (p *Path) Term(e *termEnv, v ssa.Value) *Term {
 		}
 	}
 	return ce.termOf(v)
+}
+
+// rangeIndexOf recognises the index of a `for i := range s` loop as lowered by go/ssa:
+// i = phi[-1, i] + 1 tested against len(s) in the loop header; returns s.
+func rangeIndexOf(bo *ssa.BinOp) ssa.Value {
+	if bo.Op != token.ADD {
+		return nil
+	}
+	phi, ok := bo.X.(*ssa.Phi)
+	if !ok || len(phi.Edges) != 2 {
+		return nil
+	}
+	c, ok := bo.Y.(*ssa.Const)
+	if !ok || c.Value == nil || c.Value.Kind() != constant.Int || c.Int64() != 1 {
+		return nil
+	}
+	okPhi := false
+	for i := 0; i < 2; i++ {
+		if k, isC := phi.Edges[i].(*ssa.Const); isC && k.Value != nil && k.Value.Kind() == constant.Int && k.Int64() == -1 && phi.Edges[1-i] == ssa.Value(bo) {
+			okPhi = true
+		}
+	}
+	if !okPhi || bo.Block() != phi.Block() {
+		return nil
+	}
+	iff, ok := bo.Block().Instrs[len(bo.Block().Instrs)-1].(*ssa.If)
+	if !ok {
+		return nil
+	}
+	cmp, ok := iff.Cond.(*ssa.BinOp)
+	if !ok || cmp.Op != token.LSS || cmp.X != ssa.Value(bo) {
+		return nil
+	}
+	ln, ok := cmp.Y.(*ssa.Call)
+	if !ok {
+		return nil
+	}
+	if b, isB := ln.Call.Value.(*ssa.Builtin); !isB || b.Name() != "len" {
+		return nil
+	}
+	return ln.Call.Args[0]
+}
+
+// boolPhi reconstructs short-circuit expressions: a || b || c is lowered to a phi whose edges
+// are the constant true from the blocks that test a, b (true edge) and the value of c.
+func (e *termEnv) boolPhi(p *ssa.Phi) *Term {
+	bt, ok := p.Type().Underlying().(*types.Basic)
+	if !ok || bt.Kind() != types.Bool || len(p.Edges) < 2 {
+		return nil
+	}
+	b := p.Block()
+	var constVal *bool
+	var parts []*Term
+	nonConst := 0
+	for i, ed := range p.Edges {
+		pred := b.Preds[i]
+		if c, isC := ed.(*ssa.Const); isC && c.Value != nil && c.Value.Kind() == constant.Bool {
+			v := constant.BoolVal(c.Value)
+			if constVal == nil {
+				constVal = &v
+			} else if *constVal != v {
+				return nil
+			}
+			iff, ok := pred.Instrs[len(pred.Instrs)-1].(*ssa.If)
+			if !ok {
+				return nil
+			}
+			// || : reached on the true edge with value true ; && : reached on the false edge with value false
+			if v && pred.Succs[0] == b {
+				parts = append(parts, e.termOf(iff.Cond))
+			} else if !v && pred.Succs[1] == b {
+				parts = append(parts, e.termOf(iff.Cond))
+			} else {
+				return nil
+			}
+		} else {
+			nonConst++
+			parts = append(parts, e.termOf(ed))
+		}
+	}
+	if constVal == nil || nonConst != 1 {
+		return nil
+	}
+	sortTerms(parts)
+	if *constVal {
+		return mk("or", "", parts...)
+	}
+	return mk("and", "", parts...)
 }
